@@ -1114,7 +1114,7 @@ pub fn def(tier: Tier) -> CheckDef {
     sub_rowfields(tier, &mut subs);
     sub_encodings(tier, &mut subs);
     sub_boundary(tier, &mut subs);
-    sub_files(tier, &mut subs);
+    sub_files(Tier::Thorough, &mut subs); // cheap: thorough bounds in both tiers
     sub_refusals(tier, &mut subs);
     CheckDef {
         level: "exploration",
